@@ -2,7 +2,7 @@
 
 The real parse_sql is called; `sly.Lexer.tokenize` is replaced for the duration of the call by a recorder that keeps the text it is given and
 stops the call, so whatever the code does before lexing (today: re.sub(r'[\\s;]+$', '', sql)) is observed, not modelled.
-Specification: the lexer receives a prefix of the input and the part cut off consists of white space and semicolons only."""
+Specification: the lexer receives one contiguous piece of the input; what is cut off in front is white space (and, for properties that only speak about accepted statements, semicolons), what is cut off behind is white space and semicolons."""
 import itertools
 
 ALPHABET = ['a', ' ', ';', '\n', "'"]
@@ -32,7 +32,7 @@ def lexed_text(sql, dialect):
     return seen[0] if seen else None
 
 
-def problems(dialect, maxlen):
+def problems(dialect, maxlen, lead_semicolons=False):
     """-> (n evaluated, first problem or None) ; problem = (input, observed text, reason)"""
     n = 0
     extra = ["a;\nb", "'a;\nb'", "a  \nb", "a\n;\nb;", "a;\n\n b ;\n"]
@@ -44,21 +44,31 @@ def problems(dialect, maxlen):
             return n, (s, None, f'{type(e).__name__}: {e}'[:120])
         if t is None:
             return n, (s, None, 'parse_sql did not hand any text to the lexer')
-        if not isinstance(t, str) or not s.startswith(t):
-            return n, (s, t, 'the text handed to the lexer is not a prefix of the statement (characters inside the statement were removed or changed)')
-        if any(not (c.isspace() or c == ';') for c in s[len(t):]):
-            return n, (s, t, 'characters other than white space / semicolons were cut off the end')
+        if not isinstance(t, str):
+            return n, (s, t, 'the lexer is not given a string')
+        # the lexer must receive one contiguous piece s[a:b] of the statement (nothing inside removed or changed)
+        cuts = [(a, a + len(t)) for a in range(0, len(s) - len(t) + 1) if s[a:a + len(t)] == t]
+        if not cuts:
+            return n, (s, t, 'the text handed to the lexer is not a contiguous piece of the statement (characters inside the statement were removed or changed)')
+        ok = False
+        for a, b in cuts:
+            head, tail = s[:a], s[b:]
+            if all(c.isspace() or c == ';' for c in tail) and all((c.isspace() or (c == ';' and lead_semicolons)) for c in head):
+                ok = True
+        if not ok:
+            return n, (s, t, 'characters other than white space / trailing semicolons were cut off' + ('' if lead_semicolons else ' (leading semicolons are tokens: cutting them off accepts text that has to be rejected)'))
     return n, None
 
 
-def obligation(rep, prop, tier, dialects=('mindsdb', 'mysql', 'sqlite')):
+def obligation(rep, prop, tier, dialects=('mindsdb', 'mysql', 'sqlite'), lead_semicolons=False):
+    """lead_semicolons: properties about the tree / the embedded text of an ACCEPTED statement do not care whether leading semicolons are cut off as well (C01, C16); acceptance properties do (C05)"""
     from vlib.core import Bounded
     for d in dialects:
         ml = (6 if tier == 'thorough' else 5) if d == 'mindsdb' else 4
-        n, bad = problems(d, ml)
+        n, bad = problems(d, ml, lead_semicolons)
         bid = f'{prop}.bounded.preprocess.{d}'
         bound = f'all strings of length <= {ml} over {ALPHABET!r} ({n} inputs)'
         if bad:
-            rep.add_bounded(Bounded(bid, False, bad[0], f'lexer receives {bad[1]!r}: {bad[2]}', 'a prefix of the input; only white space / semicolons cut off', bound=bound))
+            rep.add_bounded(Bounded(bid, False, bad[0], f'lexer receives {bad[1]!r}: {bad[2]}', 'a contiguous piece of the input; only white space / trailing semicolons cut off', bound=bound))
         else:
             rep.add_bounded(Bounded(bid, True, bound=bound))
